@@ -91,6 +91,9 @@ func (e *Env) resolveType(name string) (types.Type, string) {
 	case "error", "any":
 		T := types.Universe.Lookup(name).Type()
 		return T, "Iface"
+	case "struct{}":
+		T := types.NewStruct(nil, nil)
+		return T, e.g.sortOf(T)
 	}
 	if strings.HasPrefix(name, "[]") {
 		T, _ := e.resolveType(name[2:])
@@ -105,16 +108,24 @@ func (e *Env) resolveType(name string) (types.Type, string) {
 	var T types.Type
 	if i := strings.Index(name, "."); i >= 0 {
 		pk, nm := name[:i], name[i+1:]
+		best := -1
 		for _, imp := range e.pkg.Imports() {
 			if imp.Name() == pk {
 				if o := imp.Scope().Lookup(nm); o != nil {
-					T = o.Type()
+					if _, isType := o.(*types.TypeName); isType {
+						// several imported packages may share a name (core/model, server/model): prefer the
+						// one closest to the contract's own package
+						if c := commonPrefix(imp.Path(), e.pkg.Path()); c > best {
+							best = c
+							T = o.Type()
+						}
+					}
 				}
 			}
 		}
 		if T == nil {
 			// not imported by the contract's package: look through everything the loaded packages import
-			if p := e.g.ld.pkgByName(pk); p != nil {
+			if p := e.g.ld.pkgByNameWith(pk, nm); p != nil {
 				if o := p.Scope().Lookup(nm); o != nil {
 					T = o.Type()
 				}
@@ -486,13 +497,22 @@ func (e *Env) field(n *CNode) Val {
 		_, isVar := e.vars[nm]
 		_, isB := e.bound[nm]
 		if !isVar && !isB && e.pkg != nil {
+			found := false
 			for _, imp := range e.pkg.Imports() {
 				if imp.Name() == nm {
+					found = true
 					if v, ok := e.lookupPkgObj(imp, n.Name); ok {
 						return v
 					}
-					cxFail("unknown %s.%s", nm, n.Name)
 				}
+			}
+			if p := e.g.ld.pkgByNameWith(nm, n.Name); p != nil {
+				if v, ok := e.lookupPkgObj(p, n.Name); ok {
+					return v
+				}
+			}
+			if found {
+				cxFail("unknown %s.%s", nm, n.Name)
 			}
 		}
 	}
@@ -720,7 +740,7 @@ func (e *Env) call(n *CNode) Val {
 			}
 		}
 		cxFail("%s: no such field", n.Name)
-	case "preservedCells", "preservedArrays", "preservedFields", "preservedMaps":
+	case "preservedCells", "preservedArrays", "preservedFields", "preservedMaps", "preservedStruct":
 		// heap cells/arrays/fields/maps of objects that existed at function entry still have their entry contents
 		if e.fc.entry == nil {
 			cxFail("%s: no entry state", n.Name)
@@ -733,6 +753,15 @@ func (e *Env) call(n *CNode) Val {
 		case "preservedArrays":
 			T, _ := e.resolveType(n.Args[0].String())
 			keys = []string{g.arrKey(T)}
+		case "preservedStruct":
+			T, _ := e.resolveType(n.Args[0].String())
+			st, ok := T.Underlying().(*types.Struct)
+			if !ok {
+				cxFail("preservedStruct: not a struct type")
+			}
+			for i := 0; i < st.NumFields(); i++ {
+				keys = append(keys, g.fieldKey(T, i))
+			}
 		case "preservedMaps":
 			K, _ := e.resolveType(n.Args[0].String())
 			V, _ := e.resolveType(n.Args[1].String())
@@ -915,4 +944,12 @@ func (e *Env) theVisKey() string {
 		cxFail("visited(): %d map iterations in scope; only allowed inside a loop over a map", len(found))
 	}
 	return found[0]
+}
+
+func commonPrefix(a, b string) int {
+	n := 0
+	for n < len(a) && n < len(b) && a[n] == b[n] {
+		n++
+	}
+	return n
 }
